@@ -18,7 +18,8 @@ CHECKS = {
          "stick-the-landing gradient checked against plain gradient minus an independently computed score term; contrastive sets observed "
          "at the public log_prob boundary of a harness tag distribution (host callbacks) and the softmax cross-entropy recomputed from them",
          "Exploration: ~85 maximum-likelihood, 60 ELBO (value + gradient identity on 200 gradient leaves) and 70 contrastive evaluations "
-         "(every n_contrastive for batches 2-12, 2.5e3 observed log_prob events) per quick run; thorough repeats 12x over all combinations.",
+         "(every n_contrastive for batches 2-32, one loss object over sequences of batch sizes, sharply peaked logits; 1e4 observed log_prob events), several batch layouts and "
+         "partially out-of-support batches for the ML loss per quick run; thorough repeats 12x over all combinations.",
          "Value tolerance 1e-10 relative, gradient identity 1e-6; rows carry unique tags so the observed sets are unambiguous.",
          "DESIGN.md 4/C17"),
  "C14": ("runtime differential monitor with the eager execution as oracle: every method of every structure under eqx.filter_jit (bound "
@@ -32,7 +33,7 @@ CHECKS = {
          "of a lattice built around the declared shape (x and condition, missing condition) and must raise; well-formed calls must return "
          "the declared shapes; structural contract that all four methods of every concrete class carry the checking wrapper; constructor negatives",
          "Exploration, exhaustive over the per-structure lattice: ~270 structures x 4 methods x ~15 wrong x shapes + condition shapes "
-         "(2e4 calls that must raise per quick run), 10 distributions, 29 constructor negatives, 28 classes inspected.",
+         "(2e4 calls that must raise per quick run, ~1e3 of them repeated under jax.jit / jax.vmap), 10 distributions, ~50 constructor negatives, 28 classes inspected.",
          "Any exception counts as rejection; unconditional objects legitimately ignore a supplied condition.",
          "DESIGN.md 4/C13"),
  "C12": ("runtime contracts and reference monitors: icontract post-condition on the real unwrap (no wrapper left, idempotent) evaluated on "
@@ -70,14 +71,15 @@ CHECKS = {
          "Python loop of unbatched public calls",
          "Exploration: exhaustive over a lattice of event/condition/batch/sample shapes (8 batch shapes squared x 3 events x 4 condition "
          "shapes for log_prob, 4 sample shapes x batch shapes for sample and sample_and_log_prob) for tag distributions, plus 4 real "
-         "conditional distributions.",
+         "conditional distributions and 4 restricted-support distributions whose batches mix points inside and outside the support.",
          "Trusts exactness of the float64 tag encoding (21+21 key bits, 10-bit slice id) and NumPy's broadcasting as the definition.",
          "DESIGN.md 4/C06"),
  "C05": ("runtime reference-model monitor: closed-form textbook log-densities (NumPy float64, scipy.stats second opinion) vs the public "
          "log_prob at interior/edge/outside/far-tail points, accessors vs constructor arguments, seeded KS goodness-of-fit of the samplers "
          "with the DKW bound, mixtures vs weighted logsumexp and weight rescaling",
          "Exploration: 12 families x generated broadcastable parameter arrays x ~60 points (2.4e4 density cases, ~200 accessor checks, "
-         "~50 sampler tests of n=20000 per quick run).",
+         "~50 sampler tests of n=20000 per quick run), 300-dimensional location-scale cases, mixtures re-checked after a weight update, and two float32 shards "
+         "(scalar families at magnitudes 1e-6..1e3).",
          "Sampler clause detects CDF discrepancies above 0.023 only (false-alarm bound 1e-9 per test); density tolerance 1e-9 relative; "
          "points within floating-point resolution of a support edge accept both conventions.",
          "DESIGN.md 4/C05"),
@@ -99,7 +101,8 @@ CHECKS = {
          "w.r.t. every trainable leaf on boundary-directed inputs; a harness monitor on the real spline/leaky-tanh methods counts "
          "exact branch-value hits of inner leaves",
          "Exploration: ~370 distributions (every R->R leaf/combinator in both orientations, all flow factories, random trees) x 3 "
-         "parameter draws x ~100 inputs (1e5 cases, 2e5 gradient checks per quick run); oracle isnan/isfinite, no tolerance.",
+         "parameter draws x ~100 inputs (1.3e5 cases, 2e5 gradient checks per quick run) + a restricted-support pass (named families, SoftPlus/Exp/Tanh-transformed, "
+         "Uniform; points inside, on the edge of and outside the support up to 1e6; float64 and float32); oracle isnan/isfinite, no tolerance.",
          "Only judged where |log_prob| <= 1e8 and |x| <= 1e4; log_prob paths that need the bisection search are checked for NaN only "
          "(reverse-mode differentiation through lax.while_loop is unsupported by JAX).",
          "DESIGN.md 4/C18"),
@@ -107,14 +110,14 @@ CHECKS = {
          "bijection expressions on boundary-directed inputs; the round-trip identity is the oracle, with a conditioning-scaled "
          "tolerance derived from the float64 autodiff Jacobian",
          "Exploration: ~270 structures (all leaf classes and variants, every combinator, 5 flow factories x orientation x cond x "
-         "transformer, random trees) x 3 parameter draws x ~150 inputs in both directions per quick run (1.2e5 cases); held = held on "
+         "transformer + 21 unusual factory configurations, random trees) x 5 parameter modes (initialisation, 3e-5, 3e-3, 0.5, 1.5) x ~150 inputs in both directions, float64 and a float32 pass, per quick run (3.6e5 cases); held = held on "
          "the compared (well-conditioned) cases; ill-conditioned cases are executed and counted but not compared.",
          "Trusts jax.jacfwd/NumPy linalg for the conditioning estimate, the tolerance model of DESIGN.md 3.5 and the harness-side "
          "equinox shim that makes BNAF/triangular-spline flows constructible in this environment.",
          "DESIGN.md 4/C01"),
  "C02": ("runtime reference monitor: reported log-dets of the real *_and_log_det methods vs log|det| of the float64 autodiff Jacobian "
          "of the plain transform (host-side slogdet), tie-aware (k log 2) and neighbour-envelope second pass at kinks",
-         "Exploration: same generated structures/parameters/inputs as C01 (1.2e5 cases per quick run), forward and inverse "
+         "Exploration: same generated structures/parameters/inputs as C01 (3.6e5 cases per quick run, both precisions), forward and inverse "
          "log-dets, inverse compared at the point the library returned; non-trivial cases have |log det| > 1e-6.",
          "Trusts jax.jacfwd of the plain transform as an independent oracle and NumPy slogdet; oracle-noise gates as stated in evidence.assumptions.",
          "DESIGN.md 4/C02"),
@@ -138,7 +141,7 @@ CHECKS = {
          "recorded loss-call trace and returned parameter version checked against a sequential reference model",
          "Exploration: every ordering of distinct losses up to length 5 (quick) / 7 (thorough) x all patience/epoch/"
          "return_best settings is executed on the real loops and compared with a sequential model written from the "
-         "documentation; held means held on those histories, nothing is proved about longer ones.",
+         "documentation, the runs of a shard in a seeded random order (nothing may carry over between calls); held means held on those histories, nothing is proved about longer ones.",
          "Trusts jax.debug.callback ordering, optax's GradientTransformation protocol and the harness's 15-line sequential model.",
          "DESIGN.md 4/C16"),
 }
